@@ -16,6 +16,11 @@ for d in seeded/*-$R/; do
     C10-m5) id="C02";;
     C01-m6) id="C01 C07";;
     C10-m6) id="C10 C02";;
+    C08-m6) id="C10";;
+    C08-m7) id="C10";;
+    C01-m7) id="C01 C07";;
+    C12-m7) id="C12 C15";;
+    C16-m7) id="C16 C15";;
     C09-m5) continue;;
   esac
   python3 lib/mutants.py run $n $id 2>&1 | grep -v KNOWN | cut -c1-240 >> $OUT.tmp
